@@ -27,7 +27,7 @@ META = {
         "thorough": "every valid mapping of every input <=4x3 (and <=3 object leaves x 4 species), every valid ordered/unordered labelling over 2 families on 3-leaf trees; random inputs <=5x5 / 4 families",
     },
     "assumptions": ["only valid (super-)reconciliations are evaluated, as the property states"],
-    "timeout": {"quick": 900, "thorough": 7200},
+    "timeout": {"quick": 420, "thorough": 7200},
 }
 
 
